@@ -32,6 +32,15 @@ def cases(check, tier, rng, flex_values=(True, False)):
                 src, exp, nerr = c
                 out.append({"path": b["path"], "src": src, "exp": exp, "nerr": nerr, "exact": b["exact"],
                             "mode": b["mode"], "stack": b["stack"], "flex": flex})
+    # inline HTML in front of the first open tag is a behaviour of Lexer.tla (HTML_TEXT, then OPEN_*); the cover reaches most states
+    # without it, so every eighth case also gets the shortest such text there is in practice: a UTF-8 byte order mark
+    bom = b"\xef\xbb\xbf"
+    extra = []
+    for k, c in enumerate(out):
+        if k % 8 == 0 and c["path"] and c["path"][0].startswith("OPEN_"):
+            extra.append(dict(c, path=["HTML_TEXT"] + c["path"], src=bom + c["src"],
+                              exp=[("T_INLINE_HTML", 0, 3, False)] + [(t[0], t[1] + 3, t[2] + 3, t[3]) for t in c["exp"]]))
+    out += extra
     # every sequence of three atoms inside the index of "$a[...]" (Lexer.tla with LocalMax = 2: the index sub-mode's states are
     # split by the atoms consumed there), left open and closed
     loc = [b for b in behaviours(check, True, True, localmax=2 if tier == "quick" else 3)
